@@ -20,6 +20,7 @@ type Equation struct {
 
 // MustParseEquation parses the string argument and returns an Equation or panics.
 func MustParseEquation(str string) (eq *Equation) {
+	defer repanicWithError()
 	p := &parser{buf: []byte(str)}
 	eq = precedentCorrect(p.readEq())
 
